@@ -6,7 +6,7 @@
    pairwise distinct. *)
 From Flyt Require Import Pool PoolCorr PoolProofs.
 From Coq Require Import Permutation.
-From Flyt Require Import C12Glue.
+From Flyt Require Import C12Glue PoolBoundProofs.
 
 (* conservation: at every instant every task for which Submit has run wg.Add(1) is in exactly one
    place — waiting to be sent (its submitter is blocked on a full queue), queued, running on a
@@ -55,3 +55,14 @@ Theorem C12_close :
   forall qcap s k, p_closed s = true -> nth_error (p_ws s) k = Some PIdle -> pstep qcap s (TWrkExit k) <> None.
 Proof. exact closed_idle_can_exit. Qed.
 Print Assumptions C12_close.
+
+(* "submission blocks rather than drops when the queue is full", as a bound: at every instant of
+   every schedule the tasks whose Submit has returned and that have not finished number at most
+   queue capacity + workers (they are in the queue or on a worker) *)
+Theorem C12_outstanding_bounded :
+  forall qcap progs workers sched,
+    NoDup (flat_map (fun ops => flat_map (fun o => match o with PSubmit t => [t] | _ => [] end) ops) progs) ->
+    let s := prun qcap (pinit progs workers) sched in
+    length (p_added s) - length (pending_sends (p_subs s)) - length (ends (p_log s)) <= qcap + workers.
+Proof. exact outstanding_bounded_lemma. Qed.
+Print Assumptions C12_outstanding_bounded.
